@@ -207,7 +207,7 @@ CLAIMED.update({
    "adversarial (policy, data) pairs of growing size so that super-linear time or memory shows; CAR section lengths up to 2^64-1; "
    "selectors with escapes; payloads that are not maps; == on equal nested / wide containers; heads declaring 2^20 entries) - and the "
    "acceptance rule (only value/error, allocation <= 8 MiB (48 MiB for container readers) + 1 KiB per input byte + 3 x what go-ipld-prime's "
-   "decoders allocate on the same input, measured per input) evaluated by TLC on every recorded call. The replay `refusal` runs invocation.ExecutionAllowed against delegation policies not(W^d(== .x 1)), d up to 400 / 1000: matching stays within the bound and refuses; the memory of the refusal itself (it quotes the failing statement pretty-printed: cubic in d) is the recorded finding RefusalPrintsNestedPolicy.",
+   "decoders allocate on the same input, measured per input) evaluated by TLC on every recorded call. The replay `refusal` runs invocation.ExecutionAllowed against delegation policies not(W^d(== .x 1)), d up to 400 / 1000: matching stays within the bound and refuses; the memory of the refusal itself (it quotes the failing statement pretty-printed: cubic in d) is the recorded finding RefusalPrintsNestedPolicy; Printer.tla is its cost model (TLC: a compact printer is linear, re-indenting the operand at every level is not; the real printer is measured against the model's sizes byte for byte).",
    "Termination is a 20 s deadline per call; memory is cumulative allocation (an upper bound of peak use) measured with runtime.ReadMemStats; "
    "random inputs are plain sampling. go-ipld-prime pre-allocates from declared lengths up to a fixed budget (a 59-byte input announcing a 9.8 M-entry "
    "map costs 900 MB in the dependency): that share is bounded by a constant, as the property requires, and is accounted separately."),
